@@ -102,6 +102,21 @@ def continuations(ctx, cfg, hist):
     return out
 
 
+def deeper(ctx, cfg, hist, have):
+    out = []
+    for p, o in tw.cont_paths(ctx, hist, cfg["h"] + 1):
+        if p not in have:
+            have.add(p)
+            out.append((p, o, "tree+1"))
+    for pol in SPINE_POLICIES:
+        w, _ = sx_replay(ctx.build, hist)
+        evs, obs = tw.drain(w, pol, 60)
+        if evs and evs not in have:
+            have.add(evs)
+            out.append((evs, obs, "drain+"))
+    return out
+
+
 def check_point(ctx, cfg, hist, w, cov, found, only=None):
     """returns list of (key, what, replay-dict)"""
     sr = tw.searcher_of(w.s)
@@ -137,10 +152,24 @@ def check_point(ctx, cfg, hist, w, cov, found, only=None):
     conts = continuations(ctx, cfg, hist) if only is None else only
     for twin in twins:
         prefix = ("dill:%s:%s" % (slabel, srname)) if twin == "dill" else ("clone:%s:%s" % (srname, var))
+        if twin == "dill" and only is None and not cfg.get("bo"):
+            # never a verdict by itself: a restored object graph whose canonical digest differs from the original's
+            # only widens the set of continuations tried at this crash point
+            try:
+                t0 = tw.make_dill_twin(ctx, hist, w, prep)
+                if tw.canon(t0.s) != tw.canon(w.s):
+                    cov.outcome("dill:digest-differs(deepened)")
+                    conts = conts + deeper(ctx, cfg, hist, {p for p, _, _ in conts})
+            except tw.TwinError:
+                pass
         for evs, obs, kind in conts:
             res = _one(ctx, cfg, hist, w, prep, twin, (), evs, obs, cov)
             if res is None:
                 cov.outcome(twin + ":identical")
+                if len(hist) >= 4 and len(cov.samples) < 3 and len(evs) >= 3 and twin not in [x.get("twin") for x in cov.samples]:
+                    cov.sample({"cfg": _short(cfg), "twin": twin, "crash_point": [list(e) for e in hist],
+                                "continuation": [list(e) for e in evs],
+                                "observations_both": [list(map(str, o)) for o in obs][:6]})
                 continue
             clause, what, fatal, tags = res
             suffix = ""
@@ -250,9 +279,6 @@ def task(cfg):
             cov.outcome("crashpoint:with-pending-trial")
         for key, what, rp in check_point(ctx, cfg, hist, w, cov, found):
             viols.append(Violation(PROP, key, what, rp))
-        if npts in (3, 9) and len(cov.samples) < 2:
-            cov.sample({"cfg": _short(cfg), "crash_point": [list(e) for e in hist],
-                        "trace": [list(map(str, o)) for o in w.trace][-4:]})
         cov.extra["max_crash_depth"] = max(cov.extra.get("max_crash_depth", 0), len(hist))
     cov.extra["suggestions_equal_only_up_to_1e-7"] = tw.NEAR[0]
     tw.NEAR[0] = 0
